@@ -86,6 +86,15 @@ def run_real(cfg, max_steps=6000):
                 # wait (in scheduler terms) until the subscription could have taken effect
                 for _ in range(60):
                     sched.yield_point("driver.pause")
+                if cfg.get("clear_then_resub"):
+                    # the program wipes the fabric's registry (as a test fixture does between tests) and the running object subscribes again
+                    sub.fabric.clear()
+                    if cfg["sub_when"] == "after_inside":
+                        sub.post_fifo(Event(signal="DO_SUB"))
+                    else:
+                        sub.subscribe(Event(signal="PING"), queue_type=kind)
+                    for _ in range(60):
+                        sched.yield_point("driver.pause")
                 if cfg["pub_when"] == "before_start":
                     do_publish(pub)
                     pub.start_at(pub_chart)
@@ -185,6 +194,81 @@ def _run_position(cfg, max_steps, errors, log):
     return {"outcome": outcome, "pending": res.get("pending"), "reference": res.get("reference"), "errors": errors}
 
 
+def run_position_race(cfg, chooser, max_steps=8000):
+    """a stopped active object with an EMPTY queue, subscribed lifo; a publication is delivered by the fabric thread while another
+    thread posts X1 (fifo) to the same object: whichever of the two lands first, the queue ends as [PING, X1]"""
+    errors, log, res = [], [], {}
+    with dsched.Installed():
+        sched = dsched.Sched(chooser, max_steps=max_steps, trace=False)
+        dsched.Sched.current = sched
+        try:
+            sub = mao.ActiveObject(name="A")
+            sched.name_obj(sub.locking_deque.deque, "dq")       # its deque's operations are scheduling points
+            chart = make_chart(log, "A", cfg["sub_spied"], {})
+
+            def quiet():
+                me = sched.me()
+                sched.yield_point("driver.settle", enabled=lambda: all(t is me or t.finished or not sched.is_enabled(t) for t in sched.threads))
+            go, taken = [False], [False]
+            lq = sub.fabric.lifo_fabric_queue
+            plain_get = lq.get
+
+            def noting_get(*a, **k):
+                item = plain_get(*a, **k)
+                if go[0]:
+                    taken[0] = True         # the lifo delivery thread holds the publication now
+                return item
+            lq.get = noting_get
+
+            def poster():
+                # start posting once the lifo delivery thread has taken the publication off its queue: the two then race for the object's queue
+                sched.yield_point("poster.wait", enabled=lambda: go[0] and taken[0])
+                for k in range(cfg["posts"]):
+                    sub.post_fifo(Event(signal="X%d" % (k + 1)))
+
+            def driver():
+                sub.subscribe(Event(signal="PING"), queue_type="lifo")
+                sub.start_at(chart)
+                quiet()
+                sub.stop()
+                quiet()
+                # drop the STOP event stop() left: the queue is really empty now
+                sub.queue.clear()
+                go[0] = True
+                sub.fabric.publish(Event(signal="PING", payload=7))
+                quiet()
+                res["pending"] = [e.signal_name for e in sub.queue.deque.raw()]
+            sched.spawn(driver, (), name="D")
+            sched.spawn(poster, (), name="P")
+            outcome = sched.run()
+            for t in sched.threads:
+                if t.error is not None:
+                    errors.append("%s: %s: %s" % (t.name, type(t.error).__name__, t.error))
+        finally:
+            leaked = sched.shutdown()
+            if leaked:
+                errors.append("leaked: %s" % leaked)
+    return {"outcome": outcome, "pending": res.get("pending"), "errors": errors}
+
+
+def explore_position_race(run, n):
+    """C09 with the delivery racing a direct post onto an empty queue (oracle only)"""
+    rng = run.rng
+    for _ in range(n):
+        cfg = {"position_race": True, "sub_spied": rng.randrange(2), "posts": rng.randint(1, 2), "seed": rng.randrange(1 << 30)}
+        r = run_position_race(cfg, dsched.random_chooser(random.Random(cfg["seed"])))
+        run.traces_validated += 1
+        run.count("lifo delivery racing a direct post onto an empty queue")
+        want = ["PING"] + ["X%d" % (k + 1) for k in range(cfg["posts"])]
+        if r["errors"]:
+            run.violate("C09/thread-error", "a thread died: %s" % r["errors"][:2], cfg)
+        elif r["pending"] is not None and r["pending"] != want:
+            run.violate("C09/position/lifo", "an active object subscribed lifo with an empty queue: a delivered PING and %d direct fifo post(s) made at "
+                        "the same time leave the queue as %s; front for the delivery, back for the posts gives %s in every order"
+                        % (cfg["posts"], r["pending"], want), cfg)
+        run.case(cfg, nontrivial=True)
+
+
 def explore_position(run, focus="C09"):
     """C09 for active objects: every way of subscribing x fifo / lifo / both (nothing else subscribed anywhere);
     with focus C07 the same runs are judged on delivery only: the publication reaches the object's queue exactly once per
@@ -254,12 +338,22 @@ def run_publish_order(cfg, max_steps=8000):
             obs = collections.deque(maxlen=100)
             pubs = cfg["pubs"]
 
+            objs = cfg.get("objs")        # build once, publish many: publication k hands over the kept event object objs[k]
+            kept = {}
+
+            def event_for(k):
+                if objs is None:
+                    return Event(signal="NEWS", payload=k)
+                if objs[k] not in kept:
+                    kept[objs[k]] = Event(signal="NEWS", payload=objs[k])
+                return kept[objs[k]]
+
             def do_all(chart):
                 for k, p in enumerate(pubs):
                     if p == "default":
-                        chart.publish(Event(signal="NEWS", payload=k))
+                        chart.publish(event_for(k))
                     else:
-                        chart.publish(Event(signal="NEWS", payload=k), priority=p)
+                        chart.publish(event_for(k), priority=p)
             chart = make_chart(log, "P", cfg["pub_spied"], {"DO_ALL": do_all})
 
             def quiet():
@@ -300,6 +394,11 @@ def explore_publish_order(run, focus, n):
     for _ in range(n):
         cfg = {"publish_order": True, "pub_spied": rng.randrange(2), "from_handler": rng.randrange(2),
                "pubs": [rng.choice(["default", 1, 2, 5, 500, 1000, 1001, 0]) for _ in range(rng.randint(2, 5))]}
+        if rng.random() < 0.4:
+            # the same kept event objects published again and again (a heartbeat built once), other publications in between
+            cfg["pubs"] = [rng.choice(["default", "default", 1000, 5, 5]) for _ in range(rng.randint(3, 6))]
+            cfg["objs"] = [rng.randrange(2) if rng.random() < 0.6 else 2 + k for k in range(len(cfg["pubs"]))]
+            run.count("kept event objects published several times")
         r = run_publish_order(cfg)
         run.traces_validated += 1
         run.count("publish order through an active object (%s chart, %s)" % ("spied" if cfg["pub_spied"] else "un-spied",
@@ -310,6 +409,11 @@ def explore_publish_order(run, focus, n):
             run.violate("%s/thread-error" % focus, "a thread died: %s" % r["errors"][:2], cfg)
         elif r["order"] is None:
             pass
+        elif cfg.get("objs"):
+            if r["order"] != [cfg["objs"][k] for k in want]:
+                run.violate("%s/order/kept-event-objects" % focus, "publications 0..%d hand over the kept event objects %s with priorities %s while the "
+                            "delivery thread lags: the objects arrive as %s, (priority, publish order) gives %s"
+                            % (len(cfg["pubs"]) - 1, cfg["objs"], cfg["pubs"], r["order"], [cfg["objs"][k] for k in want]), cfg)
         elif sorted(r["order"]) != list(range(len(cfg["pubs"]))):
             run.violate("%s/not-delivered/through-active-object" % focus, "a%s active object published %d events (priorities %s) while the delivery "
                         "thread lagged: the observer received %s" % (" spied" if cfg["pub_spied"] else "n un-spied", len(cfg["pubs"]), cfg["pubs"], r["order"]), cfg)
@@ -331,6 +435,9 @@ def explore(run, n):
     outs = leanrun.run_driver([encode(c) for c in cfgs])
     for cfg, mo in zip(cfgs, outs):
         cfg = dict(cfg, priority=rng.choice(["default", "default", 1, 1, 0, 2, 7, 1000, 1001, 1.0, True]))
+        if rng.random() < 0.25:
+            cfg["clear_then_resub"] = True
+            run.count("registry cleared, then the running object subscribes again")
         run.count("publish priority %r" % (cfg["priority"],))
         r = run_real(cfg)
         m = dict(kv.split("=") for kv in mo.split(" "))
@@ -352,7 +459,7 @@ def explore(run, n):
                         "publish(PING) by a%s chart (%s) reached the subscriber's chart %d times"
                         % (" spied" if cfg["pub_spied"] else "n un-spied", cfg["pub_when"], r["delivered"]["A"]), cj)
         for k, cnt in enumerate(r["delivered"]["others"]):
-            if cnt != 1:
+            if cnt != (0 if cfg.get("clear_then_resub") else 1):
                 run.violate("C07/other-subscriber", "subscriber O%d received the publication %d times" % (k, cnt), cj)
         run.case(cj, nontrivial=True)
 
@@ -361,6 +468,9 @@ def replay(case):
     cc = case.get("case", case)
     if cc.get("position"):
         print(run_position(cc))
+        return 0
+    if cc.get("position_race"):
+        print(run_position_race(cc, dsched.random_chooser(random.Random(cc["seed"]))))
         return 0
     if cc.get("publish_order"):
         print(run_publish_order(cc))
